@@ -1,5 +1,7 @@
 import sys
 import os
+import warnings
+warnings.filterwarnings('ignore')
 sys.path.insert(0, os.path.dirname(os.path.abspath(__file__)))
 from sim.cli import main  # noqa
 if len(sys.argv) > 1 and sys.argv[1] == '_digests':
